@@ -123,6 +123,9 @@ func cmdFront() {
 		v := wk.VistorNode.(*parser.RootVistor)
 		g := v.G
 		fmt.Fprintf(w, "GRAMMAR %d %d\n", len(g.Symbols), len(g.VtSet))
+		if g.LR0 != nil {
+			fmt.Fprintf(w, "NSTATES %d\n", len(g.LR0.LR0Closure))
+		}
 		for _, s := range g.Symbols {
 			nt, nl := 0, 0
 			if s.IsNonTerminator {
